@@ -66,9 +66,15 @@ def c17_b(ctx: Ctx):
     f = ctx.fn(CLV)
     out = []
     env = ctx.env(f)
-    stores = [n for n in body_nodes(f) if isinstance(n, ast.Assign) and any(isinstance(t, ast.Subscript) and canon(t.value) == "links" for t in n.targets)]
+    # roles: the link table is what _update_view receives; the selection is the local bound under the `job_ids is None` decision
+    uvc = [c for c in body_nodes(f) if isinstance(c, ast.Call) and (LV + ":_update_view") in common.targets_of(ctx, f, c) and len(c.args) >= 2 and isinstance(c.args[1], ast.Name)]
+    LINKS = uvc[0].args[1].id if uvc else "links"
+    selv = [n for n in body_nodes(f) if isinstance(n, ast.Assign) and len(n.targets) == 1 and isinstance(n.targets[0], ast.Name)
+            and any(t == "job_ids is None" for (t, _) in common.facts_at(ctx, f, n, "n")) and "project" in names_in(n.value)]
+    JOBS = selv[0].targets[0].id if selv else "jobs"
+    stores = [n for n in body_nodes(f) if isinstance(n, ast.Assign) and any(isinstance(t, ast.Subscript) and canon(t.value) == LINKS for t in n.targets)]
     if not stores:
-        return [ctx.inc(R, f, f.node, "no store into links")]
+        return [ctx.inc(R, f, f.node, "no store into the link table")]
     pm = ctx.parents(f)
     for s in stores:
         cur = pm.get(id(s))
@@ -82,15 +88,25 @@ def c17_b(ctx: Ctx):
             out.append(ctx.inc(R, f, s, "link stored outside a loop"))
             continue
         it = canon(lp.iter)
-        if it == "jobs":
+        if it == JOBS:
             out.append(ctx.ok(R, f, s, "links are created for the jobs of the selection"))
+            v = canon(common.inline_at(ctx, f, s.value, s))
+            k = CLV + "|link-target"
+            jv = canon(lp.target)
+            if v in (jv + ".path", jv + ".ws"):
+                out.append(ctx.ok(R, f, s, "the link target is the job directory as the project spells it (the relative link is computed lexically from it)", construct=k))
+            elif "realpath" in v or "resolve" in v:
+                out.append(ctx.viol(R, f, s, f"the link target is {v}: _update_view computes the relative link lexically against the un-resolved view prefix, so when the project is reached through "
+                                    "a symbolic link at a different depth every link in the view dangles", construct=k))
+            else:
+                out.append(ctx.inc(R, f, s, f"link target is {v}", construct=k))
         elif "find_jobs" in it or it in ("project", "iter(project)", "list(project)"):
             out.append(ctx.viol(R, f, s, f"a link is created while iterating {it}, a second enumeration of the whole project: with an empty selection (job_ids=[]) an unselected job is linked",
                                 construct=CLV + "|links-from-project"))
         else:
             out.append(ctx.inc(R, f, s, f"links stored while iterating {it}"))
     # selection: job_ids is None <=> whole project
-    sel = [n for n in body_nodes(f) if isinstance(n, ast.Assign) and any(isinstance(t, ast.Name) and t.id == "jobs" for t in n.targets)]
+    sel = [n for n in body_nodes(f) if isinstance(n, ast.Assign) and any(isinstance(t, ast.Name) and t.id == JOBS for t in n.targets)]
     for a in sel:
         facts = common.facts_at(ctx, f, a, "n")
         t = canon(a.value)
@@ -129,21 +145,26 @@ def c17_c(ctx: Ctx):
         else:
             out.append(ctx.ok(R, fl, w, "the existing view is walked exhaustively"))
     av = ctx.fn(LV + ":_analyze_view")
-    tu = [n for n in body_nodes(av) if isinstance(n, ast.Assign) and any(isinstance(t, ast.Name) and t.id == "to_update" for t in n.targets)]
+    # roles: _analyze_view returns (obsolete, to_update, new)
+    rt = [r for r in body_nodes(av) if isinstance(r, ast.Return) and isinstance(r.value, ast.Tuple) and len(r.value.elts) == 3 and all(isinstance(e, ast.Name) for e in r.value.elts)]
+    TU = rt[0].value.elts[1].id if rt else "to_update"
+    LK = av.params[1] if len(av.params) > 1 else "links"
+    tu = [n for n in body_nodes(av) if isinstance(n, ast.Assign) and any(isinstance(t, ast.Name) and t.id == TU for t in n.targets)]
     if not tu or not isinstance(tu[0].value, ast.ListComp):
-        out.append(ctx.inc(R, av, av.node, "to_update is not a list comprehension"))
+        out.append(ctx.inc(R, av, av.node, "the list of links to update is not a list comprehension"))
     else:
         conds = [c for g in tu[0].value.generators for c in g.ifs]
         t = " and ".join(canon(c) for c in conds)
         if any(x in t for x in ("os.path.exists(", "os.path.isdir(", "os.path.lexists(", "os.path.isfile(", "samefile(")):
             out.append(ctx.viol(R, av, tu[0], f"a kept link is re-pointed only if `{t[:90]}`: a link whose old target no longer exists (job re-keyed or removed and re-created) "
                                 "stays dangling, unlike a view built from scratch"))
-        elif "os.path.realpath(" in t and "!= links[p]" in t:
+        elif len(conds) == 1 and (common.pmatch(f"os.path.realpath(os.path.join(prefix, P)) != {LK}[P]", conds[0]) is not None
+                                  or common.pmatch(f"{LK}[P] != os.path.realpath(os.path.join(prefix, P))", conds[0]) is not None):
             out.append(ctx.ok(R, av, tu[0], "a kept link is re-pointed whenever its resolved target differs from the job directory"))
         else:
             out.append(ctx.inc(R, av, tu[0], "to_update condition not recognised: " + t[:80]))
     acfg = ctx.cfg(av)
-    tu_ids = {n.id for n in acfg.stmt_nodes() if isinstance(n.ast, ast.Assign) and any(isinstance(t, ast.Name) and t.id == "to_update" for t in n.ast.targets)
+    tu_ids = {n.id for n in acfg.stmt_nodes() if isinstance(n.ast, ast.Assign) and any(isinstance(t, ast.Name) and t.id == TU for t in n.ast.targets)
               and isinstance(n.ast.value, (ast.ListComp, ast.SetComp, ast.GeneratorExp, ast.Call))}
     for n in acfg.stmt_nodes():
         if isinstance(n.ast, ast.Return):
@@ -170,7 +191,7 @@ def c17_c(ctx: Ctx):
                 out.append(ctx.ok(R, uv, m.ast, "obsolete links are removed before any link is (re)created"))
     else:
         out.append(ctx.inc(R, uv, uv.node, "_update_view: unlink / make_link not found"))
-    srt = [n for n in body_nodes(av) if isinstance(n, ast.For) and "dead_branches" in canon(n.iter)]
+    srt = [n for n in body_nodes(av) if isinstance(n, ast.For) and "_find_dead_branches" in canon(common.inline_at(ctx, av, n.iter, n))]
     if srt and "reversed(sorted(" in canon(srt[0].iter) and "key=len" in canon(srt[0].iter):
         out.append(ctx.ok(R, av, srt[0], "dead branches are removed deepest first"))
     elif srt:
@@ -200,7 +221,12 @@ def c17_d(ctx: Ctx):
 def c17_e(ctx: Ctx):
     """None-sentinels of the view code: job_ids=None means all jobs; branch=None marks the root call of the dead-branch search (an empty branch list is a real value)."""
     from .lints import sentinel_discipline
-    return sentinel_discipline(ctx, "C17-e", [("signac.linked_view:create_linked_view", "job_ids", "an empty selection is a selection: treated as 'not given' the view is built for the whole project"),
+    from .lints import single_consumption
+    extra = single_consumption(ctx, "C17-e", [
+        ("signac.project:Project.create_linked_view", "job_ids", "a selection given as a generator is exhausted by the first pass; the view is then built for an empty selection (and the fallback links an arbitrary job)"),
+        ("signac.linked_view:create_linked_view", "job_ids", "a selection given as a generator is exhausted by the first pass"),
+    ])
+    return extra + sentinel_discipline(ctx, "C17-e", [("signac.linked_view:create_linked_view", "job_ids", "an empty selection is a selection: treated as 'not given' the view is built for the whole project"),
      ("signac.linked_view:_find_dead_branches", "branch", "children of the root are visited with an empty branch list; treated as 'root call' their own node is not appended and every obsolete path loses its first component")])
 
 
